@@ -2,6 +2,7 @@ pub mod c01;
 pub mod c02;
 pub mod c13;
 pub mod c14;
+pub mod c15;
 pub mod mpc_common;
 
 use crate::ctx::Ctx;
@@ -12,6 +13,7 @@ pub fn dispatch(ctx: &mut Ctx) -> bool {
         "C02" => c02::run(ctx),
         "C13" => c13::run(ctx),
         "C14" => c14::run(ctx),
+        "C15" => c15::run(ctx),
         _ => return false,
     }
     true
